@@ -17,7 +17,9 @@ PROPS = ("C19", "C20")
 
 SIMFILE_NAMES = ["song.sm", "song.ssc", "Song.SM", "x.Ssc", "a b.sm", "other.ssc", "z.sM",
                  "second.sm", "SECOND.SSC", "._song.ssc", "._x.sm", ".hidden.sm", "~song.ssc", "#1.sm",
-                 "song .ssc", "Thumbs.db.sm"]
+                 "song .ssc", "Thumbs.db.sm",
+                 # names that are not in a Unicode normal form (stored byte-exact on POSIX)
+                 "Poke\u0301mon.sm", "Cafe\u0301.ssc", "\u212bngstr\u00f6m.sm", "\u1100\u1161.ssc"]
 NEAR_MISS = ["x.sm.old", "x.ssca", "sm", "ssc", "x.smx", "song.sm~", "xsm", "x.ssc.bak", "notes.txt",
              "x.s", "a.sm.txt", "notes.\u017fm", "draft.\u00dfc", "DRAFT.\u00dfC", "todo.sm\n",
              "Backup.SSC\n", "x.sm ", "x.\u0455m", "SM", ".sm.", "x.ssc\r"]
@@ -28,9 +30,11 @@ IMAGES = ["banner.png", "songbn.JPG", "bn.png", "xbg.png", "background.jpeg", "c
           "cdtitle-bg.gif", "banner-bg.png", "jacket-cd.png", "jk_bn.png", "..banner", "...bn", "..bg",
           "..-cd", ".banner", "cover.png ", "bn.png\t", "my banner.png ", "._banner.png",
           # a backslash is an ordinary file-name character here (POSIX, PyFilesystem)
-          "art\\cover.png", "gfx\\bn.png", "sub\\banner.png"]
+          "art\\cover.png", "gfx\\bn.png", "sub\\banner.png",
+          # lower() changes the length of these names (U+0130), others are not NFC
+          "\u0130stanbul.png", "d\u0130sc.jpg", "Cafe\u0301.png", "cove\u0301r.jpg"]
 AUDIO = ["x.ogg", "x.MP3", "song.wav", "a.oga", "x.ogg.bak", "mp3", "x.flac", "X.OGG", "song.ogg ",
-         "..ogg", "._x.ogg"]
+         "..ogg", "._x.ogg", "\u0130ntro.ogg", "the\u0301me.mp3"]
 OTHER = ["readme.txt", "notes", "thumbs.db", "x.lrc", "video.avi"]
 SUBDIRS = ["sub", "Images", "extra"]
 IMAGE_EXT = [".png", ".jpg", ".jpeg", ".gif", ".bmp"]
@@ -72,8 +76,9 @@ def _simfile_bytes(rng, fmt, assets, stray, enc):
 def _case_variant(rng, name):
     if not name.isascii():
         # special case mappings change more than the letter case ('\u00df'.upper() == 'SS'
-        # would turn a near-miss extension into a real one)
-        return name
+        # would turn a near-miss extension into a real one); lower() is the comparison the
+        # property means ("compared case-insensitively"), also when it changes the length
+        return name.lower() if "\u0130" in name else name
     r = rng.random()
     if r < 0.34:
         return name.upper()
@@ -158,7 +163,9 @@ def generate(prop, rng, run, tier):
     pack = parent + "/" + pack_name
     dirs.append(pack)
     nsongs = rng.randint(0, 4)
-    song_names = rng.sample(["Alpha", "beta song", "Gamma.v2", "delta", "E"], nsongs)
+    song_names = rng.sample(["Alpha", "beta song", "Gamma.v2", "delta", "E",
+                             # directories whose names look like something else
+                             "Cover.png", "jacket.JPG", "intro.ogg", "Cafe\u0301", "\u212b"], nsongs)
     for s in song_names:
         _gen_song_dir(rng, pack + "/" + s, files, dirs, prop)
     if rng.random() < 0.4:
@@ -861,6 +868,15 @@ def check_c20(sc, res):
         if len(kept) > 1:
             res.stats["probe:several-asset-objects-alive"] += 1
         # ---------------- pack banner
+        if any(tree.isdir(pack + "/" + e) and any(_lower_ends(e, x) for x in IMAGE_EXT)
+               for e in tree.entries(pack)):
+            # a *directory* named like an image: the quantifier has "pack directories with
+            # 0..n images inside and beside them" - not judged either way (observation: the
+            # library does not test that a matching entry is a file)
+            res.stats["outside-domain:image-named-directory-in-pack"] += 1
+            res.steps += len(disk.events) + len(disk.listings)
+            res.log("c20", disk.log_digest())
+            return
         parg = fa.p(_spell(pack, spelling))
         try:
             sp = SimfilePack(parg, **fa.kw)
